@@ -52,7 +52,7 @@ def run(ctx):
     import xeofs as xe
     rng = ctx.rng.child("c12").np
     specs = Z.specs()
-    classes = ["EOF", "ExtendedEOF", "SparsePCA", "MCA", "CPCCA", "POP", "OPA", "EOFRotator", "MCARotator"]
+    classes = ["EOF", "EOF-uncentred", "ExtendedEOF", "SparsePCA", "MCA", "CPCCA", "POP", "OPA", "EOFRotator", "MCARotator"]
     scheds = [("synchronous", dask.local.get_sync)] + ([("threads", dask.threaded.get)] if True else [])
     reps = ctx.n(1, 4)
     for rep in range(reps):
@@ -60,10 +60,12 @@ def run(ctx):
         X = Z.data2d(rng, n, p, "x", red=True)
         Y = Z.data2d(rng, n, p - 1, "y", red=True)
         for name in classes:
-            base = name.replace("Rotator", "")
+            base = name.replace("Rotator", "").replace("-uncentred", "")
             sp = specs[base]
             cross = sp.kind == "cross"
             extra = dict(use_pca=False) if cross else {}
+            if name.endswith("-uncentred"):
+                extra["center"] = False     # the data has a non-zero mean: variances are about the mean whatever the array type
 
             def build(compute, check_nans, solver="full"):
                 kw2 = dict(extra)
@@ -171,7 +173,7 @@ def run(ctx):
             ctx.oblige("correspondence:force-points", "correspondence", False, out[-500:])
         else:
             pred = C.parse_int_list((C.parse_evals(out) or [""])[0])
-            fam = {"EOF": 0, "ExtendedEOF": 0, "SparsePCA": 0, "MCA": 1, "CPCCA": 1, "EOFRotator": 2, "MCARotator": 3, "POP": 4, "OPA": 5}
+            fam = {"EOF": 0, "EOF-uncentred": 0, "ExtendedEOF": 0, "SparsePCA": 0, "MCA": 1, "CPCCA": 1, "EOFRotator": 2, "MCARotator": 3, "POP": 4, "OPA": 5}
             bad = []
             for nm, obs in ctx.extra.get("lazy_calls", {}).items():
                 p_nonzero = pred[fam[nm]] > 0
@@ -241,11 +243,16 @@ def ref_values(m, cross):
         out["components1"] = np.asarray(d["components1"].values)
         out["scores1"] = np.asarray(d["scores1"].values)
     else:
-        for k in ("norms", "explained_variance", "eigenvalues", "decorrelation_time"):
+        for k in ("norms", "explained_variance", "total_variance", "eigenvalues", "decorrelation_time"):
             if k in d:
                 out[k] = np.asarray(d[k].values)
         out["components"] = np.asarray(d["components"].values)
         out["scores"] = np.asarray(d["scores"].values)
+        if hasattr(m, "explained_variance_ratio"):
+            try:
+                out["explained_variance_ratio()"] = np.asarray(m.explained_variance_ratio().values)
+            except Exception:
+                pass
     return out
 
 
